@@ -68,7 +68,7 @@ def plan(tier, seed):
         'bounds': {'trees': len(tl), 'document_sibling_trees': len(dl), 'max_elements': 3 if tier == 'quick' else 5,
                    'roots': ['Element', 'ElementTree'], 'fragment': [None, True, False], 'namespaces_args': len(NS_ARGS),
                    'builders': ['XPathContext', 'get_node_tree', 'build_node_tree/build_lxml_node_tree'],
-                   'lazy_orders': ['document order', 'attributes and namespaces forced in reverse order first']},
+                   'lazy_orders': ['document order', 'attributes and namespaces forced in reverse order first', 'caller mutates its namespaces dict after the context is built']},
         'rule': 'all labelled trees up to the element bound x 5 decoration profiles, all 81 None/empty/value text-tail '
                 'combinations of a two-level tree, attribute counts 0-2, lxml documents with comment/PI siblings of the '
                 'root x library x root object x fragment x namespaces argument x builder x lazy-node forcing order; then '
@@ -146,7 +146,12 @@ def check_structure(tid, desc, lib, what, frag, nsarg, builder, lazy, acc):
         acc.violation('C02|%s|%s|%s|frag=%s' % (kind, lib, what, frag), key, detail, case)
     try:
         if builder == 'context':
-            root = XPathContext(root=root_obj, fragment=frag, namespaces=nsarg).root
+            caller_ns = dict(nsarg) if nsarg is not None else None
+            root = XPathContext(root=root_obj, fragment=frag, namespaces=caller_ns).root
+            if lazy == 'caller-mutates-namespaces' and caller_ns is not None:
+                # the caller goes on using its own dict after the context was built (before any lazy node exists)
+                caller_ns['zz'] = 'urn:added-later'
+                caller_ns.pop('p', None)
         elif builder == 'get_node_tree':
             root = get_node_tree(root_obj, nsarg, None, frag)
         elif lib == 'lxml':
@@ -404,6 +409,8 @@ def run_unit(unit, tier, acc):
                     for builder in ('context', 'get_node_tree', 'direct'):
                         for lazy in ('forward', 'reverse'):
                             check_structure(tid, desc, lib, what, frag, nsarg, builder, lazy, acc)
+                    if nsarg is not None:
+                        check_structure(tid, desc, lib, what, frag, nsarg, 'context', 'caller-mutates-namespaces', acc)
                 if not is_doc and (tier != 'quick' or not tid.startswith(('textvar', 'attrs')) or i % 9 == 0):
                     if frag is not False:
                         check_operators(tid, desc, lib, (what, frag), acc, tier)
